@@ -204,7 +204,11 @@ fn vtype_scheme(ts: &TypeScheme) -> VType {
     match ts {
         TypeScheme::Concrete(t) => vtype(t),
         TypeScheme::Quantified(0, qt) => vtype(&qt.inner),
-        TypeScheme::Quantified(_, _) => VType::Open(format!("{ts:?}")),
+        // printed form: free of source spans, so that two sessions can be compared
+        TypeScheme::Quantified(_, _) => {
+            use crate::pretty_print::PrettyPrint;
+            VType::Open(ts.pretty_print().to_string())
+        }
     }
 }
 
